@@ -204,7 +204,7 @@ def check(ctx):
         'have equal normal forms in the free vector-space algebra.  R2: '
         'for the resumable solvers running n then m iterations (passing '
         'back exactly what the API exposes) gives the same normal form as '
-        'n + m at once.  R3: the callback receives exactly one iterate per '
+        'n + m at once (PDHG for theta = 1, 0 and 1/2).  R3: the callback receives exactly one iterate per '
         'iteration (per inner iteration when callback_loop == "inner"), '
         'and it is the iterate after the last update.',
         ['CPython ast', 'vector-space axioms; linear operators distribute',
